@@ -30,39 +30,41 @@ def tz (x : BitVec 32) : Nat := tzr 32 x
 
 def toMask (p : UInt8 → Bool) (block : List UInt8) : BitVec 32 := BitVec.ofNat 32 (maskOf p block)
 
-/-- one 32-byte block: `some n` = the closing quote is byte `n-1` of the block; and the new carry -/
-def block (bl : List UInt8) (prev : BitVec 32) : Option Nat × BitVec 32 :=
+/-- one 32-byte block: `some n` = the closing quote is byte `n-1` of the block; the new carry; and
+    whether the escape analysis ran (`status = HasEscaped`) -/
+def block (bl : List UInt8) (prev : BitVec 32) : Option Nat × BitVec 32 × Bool :=
   let bs := toMask (· == 92) bl
   let quote := toMask (· == 34) bl
   let need := decide (((quote - 1#32) &&& bs) ≠ 0#32) || decide (prev ≠ 0#32)
   let esc := if need then getEscaped prev bs else (0#32, prev)
   let q := if need then quote &&& ~~~esc.1 else quote
-  if q ≠ 0#32 then (some (tz q + 1), esc.2) else (none, esc.2)
+  if q ≠ 0#32 then (some (tz q + 1), esc.2, need) else (none, esc.2, need)
 
-/-- the scalar loop over the last bytes (fewer than 32) -/
-def tail : Nat → List UInt8 → Nat → Option Nat
-  | 0, _, _ => none
-  | fuel+1, data, eaten =>
+/-- the scalar loop over the last bytes (fewer than 32); `st` = `status == HasEscaped` -/
+def tail : Nat → List UInt8 → Nat → Bool → Option (Nat × Bool)
+  | 0, _, _, _ => none
+  | fuel+1, data, eaten, st =>
     match data with
     | [] => none
     | ch :: rest =>
       if ch == 92 then
-        (if data.length < 2 then none else tail fuel (rest.drop 1) (eaten + 2))
-      else if ch == 34 then some (eaten + 1)
-      else tail fuel rest (eaten + 1)
+        (if data.length < 2 then none else tail fuel (rest.drop 1) (eaten + 2) true)
+      else if ch == 34 then some (eaten + 1, st)
+      else tail fuel rest (eaten + 1) st
 
-/-- `skip_string_unchecked` on the bytes after the opening quote -/
-def skipString : Nat → List UInt8 → BitVec 32 → Nat → Option Nat
-  | 0, _, _, _ => none
-  | fuel+1, data, prev, eaten =>
+/-- `skip_string_unchecked` on the bytes after the opening quote: bytes consumed up to and including the
+    closing quote, and the status (`true` = `HasEscaped`); `none` = end of input -/
+def skipString : Nat → List UInt8 → BitVec 32 → Nat → Bool → Option (Nat × Bool)
+  | 0, _, _, _, _ => none
+  | fuel+1, data, prev, eaten, st =>
     if data.length ≥ 32 then
       match block (data.take 32) prev with
-      | (some n, _) => some (eaten + n)
-      | (none, prev') => skipString fuel (data.drop 32) prev' (eaten + 32)
+      | (some n, _, need) => some (eaten + n, st || need)
+      | (none, prev', need) => skipString fuel (data.drop 32) prev' (eaten + 32) (st || need)
     else
       -- `if prev_escaped != 0 { r.eat(1) }`, then the scalar loop
-      if prev ≠ 0#32 then tail (data.length + 1) (data.drop 1) (eaten + 1)
-      else tail (data.length + 1) data eaten
+      if prev ≠ 0#32 then tail (data.length + 1) (data.drop 1) (eaten + 1) st
+      else tail (data.length + 1) data eaten st
 
 end StrSkip
 end Sonic
